@@ -150,6 +150,11 @@ ASSUMPTIONS = [
     "(histogram, context) pair holding the initial content plus everything filled since the last reset(): a compute() "
     "that takes content away (adversary candidate 4) breaks 'always equals the total filled weight ... for the element'. "
     "What else compute() does (contexts, independence of the yielded objects) is C04/C09's subject and is not judged",
+    "the coordinate of a fill is its value at the time of the call: the caller may keep one mutable point (a list or a "
+    "list subclass - get_bin_on_value takes lists and tuples as points) and overwrite it in place between fills, and may "
+    "overwrite a point after it was filled (seed C06-K: a cache holding a reference to the last coordinate object is "
+    "property-breaking); half of the histories with sequence points do so.  Points that change DURING a call "
+    "(another thread, an __eq__ with side effects) are outside",
     "the edges attribute is compared as numbers (a rewrite that stores tuples as lists is not a change of the edges)",
 ]
 RULE = ("a lazy stream of interleaved cases: (bin1d) one edge array (2..12 edges; families: uniform ints/floats, random "
@@ -163,7 +168,9 @@ RULE = ("a lazy stream of interleaved cases: (bin1d) one edge array (2..12 edges
         "arrays it runs interpGuess and roundedGuess; (hist) a histogram of 1-4 dimensions (flat and nested edge formats; "
         "axes as lists, tuples or ranges, outer list or tuple; initial value or given bins; valid and invalid "
         "edges/bins/coordinate forms, bins as a bare number) filled with a sequence of such coordinates and integer/dyadic "
-        "weights of both signs, observed after every fill (index list, changed cells, n_out_of_range) and compared with the "
+        "weights of both signs; the coordinates of half of the histories with sequence points are handed over in re-used "
+        "mutable objects (one list / list subclass overwritten in place before every fill, alternating with tuples, or the "
+        "previous fill's list overwritten after the call), observed after every fill (index list, changed cells, n_out_of_range) and compared with the "
         "specification-side interpreter (specFillAll, cellOf?, InCell, indices, total, sumW, WF, ValidEdges, Proper, "
         "guessesOKAtB); in 12 % of the histogram cases all contents and weights are integers, many beyond 2**53 (exact on "
         "the real code as well); in 5 % one axis has 13..400 edges; (elem) the same through the Histogram element with and "
@@ -570,6 +577,10 @@ def gen_hist_case(rng, tier, elem=False):
             f["dflt"] = f["w"] == 1 and rng.random() < 0.5     # call fill(coord) without the weight argument
         fills.append(f)
     case["fills"] = fills
+    # how the caller keeps his coordinate objects (see _Coords): for points that are sequences, about half of the
+    # histories re-use / overwrite mutable coordinate objects
+    if not flat and rng.random() < 0.5:
+        case["reuse"] = rng.choice(REUSE[1:])
     return case
 
 
@@ -687,6 +698,57 @@ def _coord(c):
     return tuple(c["t"]) if c.get("tuple") else list(c["t"])
 
 
+class _Point(list):
+    """a caller's own coordinate type: a list subclass (get_bin_on_value takes lists and tuples as points), equal by value"""
+    __slots__ = ()
+
+
+REUSE = (None, "buf", "sub", "after", "tmix")
+
+
+class _Coords(object):
+    """How the caller hands the coordinates of one history to fill().  The property speaks of the coordinate filled -
+    its value at the time of the call; whether the caller builds a new object per fill or keeps one mutable object and
+    changes it in place between the fills (point[0] = x; point[1] = y; hist.fill(point, w)), and what he does with the
+    object after the call, is his business.  case["reuse"]:
+      None    a new list / tuple per fill (as before);
+      "buf"   ONE list for the whole history, overwritten element by element before each fill;
+      "sub"   the same with a list subclass;
+      "after" a new list per fill, and the list of the previous fill is overwritten (with the coming coordinate) after
+              it was filled;
+      "tmix"  the buffer as in "buf", but every fill whose case says tuple gets a new tuple (buffer and tuples alternate)
+    Numbers (flat one-dimensional edges) are immutable: nothing to re-use."""
+
+    def __init__(self, case):
+        self.mode = case.get("reuse")
+        self.buf = None
+        self.prev = None
+
+    def _into(self, obj, xs):
+        if len(obj) == len(xs):
+            for k, x in enumerate(xs):
+                obj[k] = x
+        else:
+            obj[:] = xs
+        return obj
+
+    def get(self, c):
+        if "s" in c or self.mode is None:
+            return _coord(c)
+        xs = c["t"]
+        if self.mode == "after":
+            if self.prev is not None:
+                self._into(self.prev, xs)
+            self.prev = list(xs)
+            return self.prev
+        if self.mode == "tmix" and c.get("tuple"):
+            return tuple(xs)
+        if self.buf is None:
+            self.buf = _Point(xs) if self.mode == "sub" else list(xs)
+            return self.buf
+        return self._into(self.buf, xs)
+
+
 def _plain(e):
     """the numbers of an edges object as nested lists (the statement speaks of values: containers are not compared)"""
     if isinstance(e, (list, tuple, range)):
@@ -733,8 +795,9 @@ def run_impl(case):
         except Exception as e:
             return {"e": exc_name(e), "phase": "init"}
         res = {"bins0": _sc_nested(h.bins), "oor0": _scaled(h.n_out_of_range), "steps": [], "dim": h.dim}
+        cs = _Coords(case)
         for f in case["fills"]:
-            c = _coord(f["c"])
+            c = cs.get(f["c"])
             try:
                 idx = hf.get_bin_on_value(c, h.edges)
                 idx = list(idx)
@@ -779,9 +842,10 @@ def run_impl(case):
                 el = ls.Histogram(edges, bins)
         except Exception as e:
             return {"e": exc_name(e), "phase": "init"}
+        cs = _Coords(case)
         try:
             for f in case["fills"]:
-                c = _coord(f["c"])
+                c = cs.get(f["c"])
                 if f.get("ctx") is not None:
                     el.fill((c, {"k": f["ctx"]}))
                 else:
@@ -832,11 +896,12 @@ def run_impl(case):
                 el.reset()
             else:
                 ys.append(_el_yield(el))
+        cs = _Coords(case)
         try:
             for f in case["fills"]:
                 for ch in _pre(f):
                     call(ch)
-                c = _coord(f["c"])
+                c = cs.get(f["c"])
                 if f.get("ctx") is not None:
                     el.fill((c, {"k": f["ctx"]}))
                 else:
@@ -1367,7 +1432,22 @@ def _num(s):
     return None
 
 
+_REUSE_TEXT = {
+    "buf": "all points were handed over in ONE list, overwritten in place before each fill",
+    "sub": "all points were handed over in ONE object of a list subclass, overwritten in place before each fill",
+    "after": "each point was a new list; the list of the previous fill was overwritten with the next point after its fill",
+    "tmix": "points were handed over alternately as new tuples and in ONE list overwritten in place",
+}
+
+
 def oracle(case, res):
+    msg = _oracle(case, res)
+    if msg and case.get("reuse") in _REUSE_TEXT:
+        msg += f" [case['reuse']={case['reuse']!r}: {_REUSE_TEXT[case['reuse']]}]"
+    return msg
+
+
+def _oracle(case, res):
     op = case["op"]
     if op == "bin1d":
         arr = case["arr"]
